@@ -11,8 +11,17 @@ cd $wt || exit 2
 git checkout -q -- . 2>/dev/null; find . -name '*_verif.go' -delete
 git apply out/patch.diff || { echo "patch does not apply"; exit 2; }
 build=fail; go build ./... && build=ok
-suite=$(go test -vet=off -count=1 -timeout 25m ./... 2>&1 | tail -15)
-stable_fail=$(echo "$suite" | grep -E "^(--- FAIL|FAIL)" | grep -v -E "TestInsertionHappyPath|TestInsertionWrongInput|TestWrongMethod" | head -5)
+suite_full=$(go test -vet=off -count=1 -timeout 25m ./... 2>&1)
+# the three root-package tests that bind fixed ports are flaky under load: a failing root package is re-run alone
+if echo "$suite_full" | grep -q -E "^FAIL\s+worldcoin/gnark-mbu\s"; then
+  for k in 1 2 3; do
+    root=$(go test -vet=off -count=1 -timeout 25m . 2>&1)
+    echo "$root" | grep -q -E "^ok\s" && { suite_full=$(echo "$suite_full" | grep -v -E "^(--- FAIL|FAIL)"); suite_full="$suite_full
+root package re-run alone: ok (attempt $k)"; break; }
+  done
+fi
+suite=$(echo "$suite_full" | grep -E "^(--- FAIL|--- PASS|ok|FAIL|root package)" | tail -25)
+stable_fail=$(echo "$suite" | grep -E "^--- FAIL" | grep -v -E "TestInsertionHappyPath|TestInsertionWrongInput|TestWrongMethod" | head -5)
 if [[ $demo == *.sh ]]; then
   # shell demonstration: exit status 0 = property observed to hold
   bash out/$demo > /tmp/seed/$id.with.log 2>&1; with_rc=$?
